@@ -19,6 +19,16 @@ def payload(r, sizes=None):
     return b
 
 
+def addr(r):
+    """an IPv4 address from every class a mapping to link-layer addresses might treat specially"""
+    k = r.below(10)
+    if k == 0: return 0xe0000000 + r.below(2 ** 28)                  # multicast 224/4
+    if k == 1: return r.choice([0xffffffff, 0, 0x7f000001, 0xe0000001, 0xe00000fb, 0xefffffff, 0xf0000001])
+    if k == 2: return r.choice([0x0a000000, 0xac100000, 0xc0a80000, 0xa9fe0000]) + r.below(65536)   # private / link-local
+    if k == 3: return (r.below(256) << 24) | r.choice([0x00ffffff, 0x000000ff, 0x00000000])        # x.255.255.255, x.0.0.255, x.0.0.0
+    return r.below(2 ** 32)
+
+
 def lit(b):
     return '"|%s|"' % b.hex() if b else '""'
 
@@ -61,6 +71,7 @@ class Scen:
     def tcp(self, nops=4, wrap=None):
         r = self.r
         cl = (0x0a000000 + r.below(2 ** 24), r.below(65536)); sv = (0xc0000200 + r.below(256), r.choice([80, 443, r.below(65536)]))
+        if r.chance(1, 3): cl, sv = (addr(r), cl[1]), (addr(r), sv[1])
         self.n += 1; f = 't%d' % self.n
         self.decl.append('let %s = ipv4::tcp::flow(%s:%d, %s:%d%s);' % (f, ip(cl[0]), cl[1], ip(sv[0]), sv[1], self.rawarg()))
         c2s = dict(src=cl[0], dst=sv[0]); s2c = dict(src=sv[0], dst=cl[0])
@@ -98,6 +109,7 @@ class Scen:
     def udp(self, nops=3, wrap=None, sizes=None):
         r = self.r
         cl = (0x0a000000 + r.below(2 ** 24), r.below(65536)); sv = (0xac100000 + r.below(2 ** 16), r.choice([53, 67, r.below(65536)]))
+        if r.chance(1, 3): cl, sv = (addr(r), cl[1]), (addr(r), sv[1])
         self.n += 1; f = 'u%d' % self.n
         self.decl.append('let %s = ipv4::udp::flow(%s:%d, %s:%d%s);' % (f, ip(cl[0]), cl[1], ip(sv[0]), sv[1], self.rawarg()))
         for _ in range(nops):
@@ -116,7 +128,7 @@ class Scen:
         self.decl.append('let %s = ipv4::udp::flow(1.2.3.4:1000, 5.6.7.8:53%s);' % (f, self.rawarg()))
         self.emit('%s.client_dgram(%s)' % (f, lit(b)), [dict(src=0x01020304, dst=0x05060708, sport=1000, dport=53, proto=17, id=0, ttl=64, off=0, evil=False, df=False, mf=False, l4=('udp', True), eth='ip')])
     def unicast(self, wrap=None):
-        r = self.r; s = (r.below(2 ** 32), r.below(65536)); d = (r.below(2 ** 32), r.below(65536)); b = payload(r)
+        r = self.r; s = (addr(r), r.below(65536)); d = (addr(r), r.below(65536)); b = payload(r)
         self.emit('ipv4::udp::unicast(%s:%d, %s/%d%s, %s)' % (ip(s[0]), s[1], ip(d[0]), d[1], self.rawarg(), lit(b)),
                   [dict(src=s[0], dst=d[0], sport=s[1], dport=d[1], proto=17, id=0, ttl=64, off=0, evil=False, df=False, mf=False, l4=('udp', False), eth='ip')], wrap)
     def broadcast(self, override=None):
@@ -134,7 +146,7 @@ class Scen:
         a = dict(q, src=ns, dst=cl, sport=53, dport=32768)
         self.emit('dns::host(%s)' % ', '.join(args), [q, a])
     def icmp(self, nops=4, wrap=None):
-        r = self.r; cl, sv = r.below(2 ** 32), r.below(2 ** 32)
+        r = self.r; cl, sv = addr(r), addr(r)
         self.n += 1; f = 'i%d' % self.n
         self.decl.append('let %s = ipv4::icmp::flow(%s, %s%s);' % (f, ip(cl), ip(sv), self.rawarg()))
         ping = pong = 0
@@ -145,7 +157,7 @@ class Scen:
             else:
                 self.emit('%s.echo_reply(%s)' % (f, lit(b)), [dict(src=sv, dst=cl, proto=1, id=0, ttl=64, off=0, evil=False, df=False, mf=False, l4=('icmp', 0, 0x1234, pong), eth='ip', plen=len(b))], wrap); pong += 1
     def datagram(self):
-        r = self.r; s, d = r.below(2 ** 32), r.below(2 ** 32)
+        r = self.r; s, d = addr(r), addr(r)
         o = dict(id=r.choice([0, 1, 65535, r.below(65536)]), evil=r.chance(1, 3), df=r.chance(1, 2), mf=r.chance(1, 3), ttl=r.choice([0, 1, 64, 255, r.below(256)]),
                  off=r.choice([0, 1, 8191, r.below(8192)]), proto=r.choice([1, 6, 17, 47, 255, r.below(256)]))
         args = [ip(s), ip(d)]
@@ -157,7 +169,7 @@ class Scen:
         if self.raw: return   # ipv4::datagram has no raw option
         self.emit('ipv4::datagram(%s)' % ', '.join(args), [dict(src=s, dst=d, l4=None, eth='ip', **o)])
     def frag(self, big=None):
-        r = self.r; s, d = r.below(2 ** 32), r.below(2 ** 32)
+        r = self.r; s, d = addr(r), addr(r)
         o = dict(id=r.below(65536), evil=r.chance(1, 3), df=r.chance(1, 3), ttl=r.below(256), proto=r.choice([17, 6, r.below(256)]))
         if big is not None or r.chance(1, 4):
             # contexts of 8 KiB and more: lengths in 8-byte blocks no longer fit 13 bits, byte lengths need more than 16
